@@ -395,4 +395,4 @@ def rest_collapse_rule(F, R):
                    "call-site count, so when the rest list is empty or has two or more elements the parameters read the "
                    "wrong stack slots (stale values of the previous activation)" % fn.short(),
                    fn.loc(fn.blocks[a].get("line")), sample=True)
-    R.floor("C01.v", "rest-argument collapse sites", sites, 4)
+    R.floor("C01.v", "rest-argument collapse sites", sites, 4 if "jit2" in (F.meta.get("features") or []) else 2)
